@@ -14,7 +14,7 @@ RULE = ("random installations (platform in win32/ps3/ps4/ps5/lys, base + random 
         "(same folder other file, same file other folder, stored in another repository / category / unknown category / no slash) and random absent paths, "
         "then the same queries in another order on a fresh handle; installation shapes with > 65 536 entries in one index, 70..95 index files on one handle and dat files "
         "addressed beyond 4 GiB (sparse); every history of length <= 2 (thorough: <= 4) over a 9-letter alphabet of (operation, path) pairs that touch different "
-        "index files / stored vs absent / case variants, each on a fresh handle. Oracle: Python index model on hashes (zlib.crc32). "
+        "index files / stored vs absent / case variants, each on a fresh handle; two installations (three handles) alive at once with interleaved queries. Oracle: Python index model on hashes (zlib.crc32). "
         "non-trivial = query expected present or a near miss; distinct = digest of (installation, query kind, path)")
 ASSUMPTIONS = ["index / dat layouts as documented for SqPack (the library accepts the generated files)",
                "when a path names a repository that is not installed, both 'absent' and 'looked up in the base repository' are accepted (leniency)"]
@@ -24,7 +24,7 @@ CATS = list(sq.CATEGORIES)
 
 def plan(tier):
     if tier == "quick":
-        return [("debug", 16, dict(n=8, nq=150, hist=2))]
+        return [("debug", 16, dict(n=8, nq=150, hist=2)), ("release", 4, dict(n=4, nq=120, hist=2))]
     return [("debug", 16, dict(n=180, nq=220, hist=4)), ("release", 8, dict(n=60, nq=200, hist=3)), ("asan", 4, dict(n=12, nq=120, hist=2))]
 
 
@@ -283,9 +283,46 @@ def exhaustive_histories(ctx, rng, maxlen):
         shutil.rmtree(root, ignore_errors=True)
 
 
+def two_handles(ctx, rng, nq):
+    """two installations open at the same time, queries interleaved between the two handles (and a second handle on the first
+    installation): an answer must come from the handle's own installation, whatever another live handle has loaded"""
+    ra, rb = ctx.path("game-a"), ctx.path("game-b")
+    ia = build_installation(ctx, rng, ra, "normal")
+    ib = build_installation(ctx, rng, rb, "normal")
+    try:
+        hs = []
+        for inst, root in ((ia, ra), (ib, rb), (ia, ra)):
+            r = ctx.call("gd.open", inst.platform, root)
+            if not r.ok:
+                return
+            hs.append((r.value["handle"], inst, root))
+        # paths stored in one installation are queried on the other too (same category names, other content)
+        stored = [s[0] for s in ia.stored[:40]] + [s[0] for s in ib.stored[:40]]
+        for k in range(nq):
+            h, inst, root = hs[rng.randrange(3)]
+            path = rng.choice(stored) if rng.random() < 0.8 else variants(rng, rng.choice(stored))
+            op = rng.choice(["exists", "find_offset", "extract"])
+            rec = ctx.call("gd." + op, h, path, *(["-"] if op == "extract" else []), input_bytes=inst.bytes)
+            ctx.check_mon(rec, inst.bytes, residual=False, files=[root])
+            if rec.outcome not in ("ok", "none"):
+                continue
+            ans = (rec.outcome, rec.value if op != "extract" else (rec.value or {}).get("hex"))
+            present, locs, ecls = expected(inst, path)
+            ctx.case(digest("two", sorted(ia.payload)[:3], sorted(ib.payload)[:3], k, op, path), True, ["two-handles", "q:" + op, "expect:" + ("lenient" if present is None else "present" if present else "absent")],
+                     sample=dict(handles=3, installations=2, query=op, path=path) if k == 0 else None)
+            judge(ctx, inst, op, path, "two-handles", ans, present, locs, root)
+        for h, _, _ in hs:
+            ctx.call("drop", h)
+    finally:
+        shutil.rmtree(ra, ignore_errors=True)
+        shutil.rmtree(rb, ignore_errors=True)
+
+
 def shard(ctx):
     rng, P = ctx.rng, ctx.params
     exhaustive_histories(ctx, rng, P.get("hist", 2))
+    for _ in range(P.get("two", 1)):
+        two_handles(ctx, rng, 120)
     for i in range(P["n"]):
         root = ctx.path("game%d" % i)
         shape = "normal"
